@@ -140,6 +140,22 @@ Definition one_of_ok (flds out : list (str * value)) : bool :=
   | _, _ => false
   end.
 
+(* what an object value provides per field name, given the treatment [co] of a field value at its
+   declared type; None = a field the type does not define *)
+Section PreFields.
+  Variable co : value -> ty -> provided.
+  Variable defs : list arg_def.
+  Fixpoint pre_fields (flds : list (str * value)) : option (list (str * provided)) :=
+    match flds with
+    | [] => Some []
+    | (k, x) :: r =>
+      match find_arg k defs, pre_fields r with
+      | Some ad, Some pr => Some ((k, co x (a_type ad)) :: pr)
+      | _, _ => None
+      end
+    end.
+End PreFields.
+
 Definition get_pre (pre : list (str * provided)) (ad : arg_def) : provided :=
   match lookup (a_name ad) pre with Some p => p | None => PAbsent end.
 
@@ -198,17 +214,8 @@ Section CoerceValues.
           let '(depth, n) := unwrap_named t in
           match lookup_type s n with
           | Some (TInput defs oneof) =>
-              match
-                (fix go (l : list (str * value)) : option (list (str * provided)) :=
-                   match l with
-                   | [] => Some []
-                   | (k, x) :: r =>
-                     match find_arg k defs, go r with
-                     | Some ad, Some pr =>
-                         Some ((k, if missing_var x then PAbsent else PValue (coerce_lit x (a_type ad))) :: pr)
-                     | _, _ => None                      (* a field the type does not define *)
-                     end
-                   end) flds
+              match pre_fields (fun x t' => if missing_var x then PAbsent else PValue (coerce_lit x t'))
+                               defs flds
               with
               | None => None
               | Some pre =>
@@ -249,16 +256,7 @@ Section CoerceValues.
         let '(depth, n) := unwrap_named t in
         match lookup_type s n with
         | Some (TInput defs oneof) =>
-            match
-              (fix go (l : list (str * value)) : option (list (str * provided)) :=
-                 match l with
-                 | [] => Some []
-                 | (k, x) :: r =>
-                   match find_arg k defs, go r with
-                   | Some ad, Some pr => Some ((k, PValue (coerce_val x (a_type ad))) :: pr)
-                   | _, _ => None
-                   end
-                 end) flds
+            match pre_fields (fun x t' => PValue (coerce_val x t')) defs flds
             with
             | None => None
             | Some pre =>
